@@ -154,8 +154,8 @@ func (r *EntityLocal) AddUseCaseSupport(
 	verifYield("UseCase.copied")
 
 	address := model.FeatureAddressType{
-		Device: r.address.Device,
-		Entity: r.address.Entity,
+		Device: r.Address().Device,
+		Entity: r.Address().Entity,
 	}
 
 	data.AddUseCaseSupport(address, actor, useCaseName, useCaseVersion, useCaseDocumemtSubRevision, useCaseAvailable, scenarios)
@@ -173,8 +173,8 @@ func (r *EntityLocal) HasUseCaseSupport(actor model.UseCaseActorType, useCaseNam
 	}
 
 	address := model.FeatureAddressType{
-		Device: r.address.Device,
-		Entity: r.address.Entity,
+		Device: r.Address().Device,
+		Entity: r.Address().Entity,
 	}
 
 	return data.HasUseCaseSupport(address, actor, useCaseName)
@@ -198,8 +198,8 @@ func (r *EntityLocal) SetUseCaseAvailability(
 	verifYield("UseCase.copied")
 
 	address := model.FeatureAddressType{
-		Device: r.address.Device,
-		Entity: r.address.Entity,
+		Device: r.Address().Device,
+		Entity: r.Address().Entity,
 	}
 
 	data.SetAvailability(address, actor, useCaseName, available)
@@ -224,8 +224,8 @@ func (r *EntityLocal) RemoveUseCaseSupport(
 	verifYield("UseCase.copied")
 
 	address := model.FeatureAddressType{
-		Device: r.address.Device,
-		Entity: r.address.Entity,
+		Device: r.Address().Device,
+		Entity: r.Address().Entity,
 	}
 
 	data.RemoveUseCaseSupport(address, actor, useCaseName)
@@ -247,8 +247,8 @@ func (r *EntityLocal) RemoveAllUseCaseSupports() {
 	verifYield("UseCase.copied")
 
 	address := model.FeatureAddressType{
-		Device: r.address.Device,
-		Entity: r.address.Entity,
+		Device: r.Address().Device,
+		Entity: r.Address().Entity,
 	}
 
 	data.RemoveUseCaseDataForAddress(address)
